@@ -112,6 +112,8 @@ def _contract_job(args):
                     rr, dt, model = smt.refute_finite(_as_goal_false(o), frun.vc.axioms, bounds, budget['fin_ms'], seed)
                     if rr == 'sat':
                         out['covers_sat'] += 1
+                    elif rr != 'unsat':
+                        out['covers_unknown'] = out.get('covers_unknown', 0) + 1
             bykey = {}
             second_budget = [90.0]
             for o in fobs:
@@ -343,7 +345,11 @@ def main(argv=None):
                 known_hits.append((k, rf))
             else:
                 violations.append((out, rf))
-        if not out['error'] and c.cover and out['covers_sat'] == 0 and not out['refuted']:
+        if not out['error'] and c.cover and out['covers_sat'] == 0 and not out['refuted'] and (out.get('covers_unknown') or out.get('fin_error')):
+            # the reachability covers were not ANSWERED (solver timeout / generation budget under machine load): the guard is undecided, not failed
+            degraded.append(dict(contract=out['cname'], obligation='(vacuity guard)', why='reachability covers undecided (%d of %d timed out%s)' % (
+                out.get('covers_unknown', 0), out['covers'], '; ' + str(out.get('fin_error')) if out.get('fin_error') else '')))
+        elif not out['error'] and c.cover and out['covers_sat'] == 0 and not out['refuted']:
             checker_errors.append('%s: vacuity guard - no feasible normal exit in finitised mode (covers=%d)' % (out['cname'], out['covers']))
         if not out['error'] and not out['results'] and not getattr(c, 'allow_no_obligations', False):
             checker_errors.append('%s: zero obligations generated' % out['cname'])
@@ -387,6 +393,14 @@ def main(argv=None):
             # input exists on the real code within the bounded search: undecided, not a violation
             degraded.append(dict(contract=out['cname'], obligation=rf['name'],
                                  why='counter-model only under over-approximated state (%s); no failing input on the real code: undecided' % '; '.join(over)))
+            continue
+        elif str(rf.get('kind', '')).startswith('lemma-step'):
+            # a `cut` is a step of OUR proof script (an intermediate fact proved and then used), not a clause of the property: when it is
+            # refuted and the bounded search finds no failing input on the real code, what failed is the proof attempt (the edited code
+            # reaches the post by another route than the script expects) - undecided, never an alarm.  The property clauses themselves
+            # (post / raises / frame / call-pre / crash obligations) stay violations even without a failing input.
+            degraded.append(dict(contract=out['cname'], obligation=rf['name'],
+                                 why='a step of the proof script is refuted and no failing input exists on the real code within the bounded search: proof attempt failed, undecided'))
             continue
         else:
             lines.append('VIOLATION property=%s replay=%s obligation=%s no-failing-input-found' % (prop, path, rf['name']))
